@@ -31,13 +31,16 @@ class BMSToQua(ConvertBase):
         qua.bpms = cls.cast(bms.bpms, QuaBpmList, dict(offset="offset", bpm="bpm"))
 
         qua.title = unidecode(bms.title.decode("sjis"))
-        qua.mode = QuaMapMode.get_mode(int(bms.stack().column.max() + 1))
+        # A chart without notes has no highest column (NaN): the default mode is kept
+        keys = bms.stack().column.max() + 1
+        if keys == keys:
+            qua.mode = QuaMapMode.get_mode(int(keys))
         qua.difficulty_name = unidecode(bms.version.decode("sjis"))
         qua.artist = unidecode(bms.artist.decode("sjis"))
 
         if raise_bad_mode and not qua.mode:
             raise ValueError(
-                f"Keys {int(bms.stack().column.max() + 1)} isn't supported"
+                f"Keys {int(keys)} isn't supported"
                 f"by Quaver."
             )
 
